@@ -156,7 +156,32 @@ Theorem C05_spec_remove_variable_others :
 Proof. exact spec_remove_variable_others. Qed.
 Print Assumptions C05_spec_remove_variable_others.
 
-(* --- the hypotheses are satisfiable on non-trivial data; the discrete-mark deviations are real --- *)
+(* --- discrete marks (S level, the rules of the repaired code) --- *)
+Theorem C05_fix_variable_discrete_mark :
+  forall l a q q' x,
+    find_var l (q_vars q) = Some x -> v_vt x = BINARY -> Qc_eqb a 0 = false ->
+    fix_one l a q = (q', XNone) ->
+    map k_mark (q_cons q') = map (fun k => k_mark k && negb (pmentions (k_p k) l)) (q_cons q).
+Proof. exact fix_variable_marks. Qed.
+Print Assumptions C05_fix_variable_discrete_mark.
+
+Theorem C05_fix_variable_discrete_mark_other :
+  forall l a q q' x,
+    find_var l (q_vars q) = Some x -> (is_binary (v_vt x) && negb (Qc_eqb a 0) = false) ->
+    fix_one l a q = (q', XNone) ->
+    map k_mark (q_cons q') = map k_mark (q_cons q).
+Proof. exact fix_variable_marks_other. Qed.
+Print Assumptions C05_fix_variable_discrete_mark_other.
+
+Theorem C05_flip_variable_discrete_mark :
+  forall l q q',
+    flip l q = (q', XNone) ->
+    map k_mark (q_cons q') =
+    map (fun k => k_mark k && negb (is_discrete (q_vars q) k && pmentions (k_p k) l)) (q_cons q).
+Proof. exact flip_variable_marks. Qed.
+Print Assumptions C05_flip_variable_discrete_mark.
+
+(* --- the hypotheses are satisfiable on non-trivial data --- *)
 Definition ex_e : mexpr :=
   m_add_quadratic (fun _ => INTEGER) 4 1 (qc 3 1) (m_add_linear 3 (qc 5 2) (m_add_linear 0 (qc 1 1) e_empty)).
 
@@ -169,9 +194,14 @@ Proof. vm_compute. repeat split; reflexivity. Qed.
 
 Definition ex_discrete : list op :=
   [AddDiscreteIter [0; 1; 2] 0 true; FixVar 0 (qc 1 1); VSetOffset (TCon 0) (qc 0 1)].
+Definition ex_flip : list op :=
+  [AddDiscreteIter [0; 1; 2] 0 true; Flip 0; VRemoveVar (TCon 0) 0; VSetOffset (TCon 0) (qc 0 1)].
 
-(* documented rule (faithful = false): the mark is dropped; the pinned code (faithful = true) keeps it *)
-Example C05_fix_variable_discrete_mark_refuted :
-  existsb (is_discrete (q_vars (run false ex_discrete empty_cqm))) (q_cons (run false ex_discrete empty_cqm)) = false
-  /\ existsb (is_discrete (q_vars (run true ex_discrete empty_cqm))) (q_cons (run true ex_discrete empty_cqm)) = true.
-Proof. vm_compute. split; reflexivity. Qed.
+(* the discrete status ended by fix_variable(v, 1) / flip_variable(v) does not come back when the
+   constraint later becomes one-hot again by other edits *)
+Example C05_example_discrete_mark_not_restored :
+  existsb (is_discrete (q_vars (run ex_discrete empty_cqm))) (q_cons (run ex_discrete empty_cqm)) = false
+  /\ existsb (is_onehot (q_vars (run ex_discrete empty_cqm))) (q_cons (run ex_discrete empty_cqm)) = true
+  /\ existsb (is_discrete (q_vars (run ex_flip empty_cqm))) (q_cons (run ex_flip empty_cqm)) = false
+  /\ existsb (is_onehot (q_vars (run ex_flip empty_cqm))) (q_cons (run ex_flip empty_cqm)) = true.
+Proof. vm_compute. repeat split; reflexivity. Qed.
